@@ -67,10 +67,43 @@ def who_may_publish(ctx, py: PyRepo):
     ctx.analysed['publish call sites'] = n
 
 
+def theory_generator(ci, gname):
+    """the other spelling of "imported modules first, recursively, then the own axioms": a generator method G of ProofExp,
+         for sub in self._submodules: yield from sub.G()
+         yield from self._axioms            (or: for a in self._axioms: yield a)
+    -> 'ok'; 'shallow' when what is taken from an imported module is not its own G() (its `get_axioms()` / `_axioms` are that module's
+    OWN axioms: the imports of the import are lost); None when G is not of this shape."""
+    g = ci.methods.get(gname)
+    if g is None or len(g.args.args) != 1:
+        return None
+    body = [x for x in g.body if not (isinstance(x, ast.Expr) and isinstance(x.value, ast.Constant))]
+    if len(body) != 2 or not isinstance(body[0], ast.For) or ast.unparse(body[0].iter) != 'self._submodules' or not isinstance(body[0].target, ast.Name) \
+            or body[0].orelse or len(body[0].body) != 1:
+        return None
+    own = body[1]
+    own_ok = (isinstance(own, ast.Expr) and isinstance(own.value, ast.YieldFrom) and ast.unparse(own.value.value) == 'self._axioms') or \
+        (isinstance(own, ast.For) and ast.unparse(own.iter) == 'self._axioms' and isinstance(own.target, ast.Name) and len(own.body) == 1 and not own.orelse
+         and isinstance(own.body[0], ast.Expr) and isinstance(own.body[0].value, ast.Yield) and isinstance(own.body[0].value.value, ast.Name)
+         and own.body[0].value.value.id == own.target.id)
+    if not own_ok:
+        return None
+    inner = body[0].body[0]
+    v = body[0].target.id
+    if isinstance(inner, ast.Expr) and isinstance(inner.value, ast.YieldFrom):
+        src = inner.value.value
+        if isinstance(src, ast.Call) and isinstance(src.func, ast.Attribute) and isinstance(src.func.value, ast.Name) and src.func.value.id == v \
+                and src.func.attr == gname and not src.args and not src.keywords:
+            return 'ok'
+        if any(isinstance(x, ast.Name) and x.id == v for x in ast.walk(src)):
+            return 'shallow'
+    return None
+
+
 def loop_shape(ctx, py: PyRepo):
     from ..core.pyfacts import self_method_resolver
     # private helpers of ProofExp (a phase split into named parts) are evaluated in place: their loops are the phase's loops
     ev = PyEval(resolver=self_method_resolver(py, py.cls('ProofExp'), SELF, only_private=True))
+    gamma_generator = [None]
     spec = {'execute_gamma_phase': ('publish_axiom', ('attr', SELF, '_axioms'), False),
             'execute_claims_phase': ('publish_claim', ('attr', SELF, '_claims'), True)}
     for meth, (pub, source, rev) in spec.items():
@@ -98,7 +131,13 @@ def loop_shape(ctx, py: PyRepo):
             want_it = ('call', ('name', 'reversed'), (source,), ()) if rev else source
             var = e.value[1]
             want_arg = ('call', ('attr', ('param', 'interpreter'), 'pattern'), (('elem', it),), ())
-            if it != want_it:
+            tg = None
+            if meth == 'execute_gamma_phase' and it[0] == 'call' and it[1][0] == 'attr' and it[1][1] == SELF and not it[2] and not it[3]:
+                tg = theory_generator(py.cls('ProofExp'), it[1][2])
+                gamma_generator[0] = (it[1][2], tg)
+            if tg is not None:
+                pass                                                   # judged under `submodules` below; the own axioms come last, in order
+            elif it != want_it:
                 ok, detail = False, (f'{meth} iterates {show(it)} instead of {show(want_it)}: a slice, filter, set or sorted view '
                                      f'publishes something other than the declared list in order')
             elif call[2] != (want_arg,):
@@ -122,7 +161,16 @@ def loop_shape(ctx, py: PyRepo):
         sub_ok = hit
         if not hit:
             break
-    ctx.ob('publish-loop', 'submodules', sub_ok, 'execute_gamma_phase must publish the axioms of every imported module through the same interpreter',
+    if gamma_generator[0] is not None:
+        gname_, verdict = gamma_generator[0]
+        sub_ok = verdict == 'ok'
+        if verdict == 'shallow':
+            ctx.ob('publish-loop', 'submodules', False,
+                   f'ProofExp.{gname_} takes from each imported module only that module\'s OWN axioms, not its {gname_}(): the axioms of the '
+                   f'modules IT imports are declared (and needed by its proofs) but never published', py.where('proof', py.cls('ProofExp').methods[gname_]))
+            sub_ok = None
+    if sub_ok is not None:
+      ctx.ob('publish-loop', 'submodules', sub_ok, 'execute_gamma_phase must publish the axioms of every imported module through the same interpreter',
            py.where('proof', fn))
     # the declared lists are only appended to (no removal / reordering after declaration)
     ci = py.cls('ProofExp')
